@@ -74,6 +74,18 @@ Definition quad_form (n : nat) (g : nat -> R) (C : nat -> nat -> R) : R :=
 Definition propagated_var (n : nat) (g sigma : nat -> R) (cov : nat -> nat -> R) : R :=
   rsum n (fun i => (g i * sigma i) ^ 2) + psum n (fun i j => 2 * cov i j * g i * g j).
 
+(** the pre-set models: lambda x: func(x, *params) of __combine_fit_func_and_fit_params *)
+Inductive model := MLin | MQuad | MPoly | MExpo | MGauss.
+Definition model_fn (m : model) (ps : list R) (x : R) : R :=
+  match m, ps with
+  | MLin, [a; b] => FitR.fit_lin x a b
+  | MQuad, [a; b; c] => FitR.fit_quad x a b c
+  | MPoly, _ => FitR.fit_poly x ps
+  | MExpo, [c; a] => FitR.fit_expo x c a
+  | MGauss, [n; m; s] => FitR.fit_gauss x n m s
+  | _, _ => 0
+  end.
+
 (** numerical_derivative(f, x0, dx) *)
 Definition central_diff (f : R -> R) (x0 dx : R) : R := FitGlueR.num_derivative f x0 dx.
 
@@ -290,6 +302,18 @@ Definition curve_fit_sigmas (sel : list dpt) : option (list Q) * option (list Q)
 End CurveFit.
 
 (* ---- XYFitResult ---------------------------------------------------------------------- *)
+(** the rational models bound to their parameters; [MUserQuad] is the user model
+    f(x, a, b) = a*x**2 + b*x used by the correspondence for the curve_fit path *)
+Inductive model := MLin | MQuad | MPoly | MUserQuad.
+Definition model_fn (m : model) (ps : list Q) (x : Q) : Q :=
+  match m, ps with
+  | MLin, [a; b] => FitQ.fit_lin x a b
+  | MQuad, [a; b; c] => FitQ.fit_quad x a b c
+  | MPoly, _ => FitQ.fit_poly x ps
+  | MUserQuad, [a; b] => a * x ^ 2 + b * x
+  | _, _ => 0
+  end.
+
 (** residuals over the WHOLE data set (not only the selected range), for a model function
     already bound to the parameters *)
 Definition residuals (f : Q -> Q) (data : list dpt) : list Q := map (fun t => dy t - f (dx t)) data.
